@@ -15,7 +15,8 @@ S = {"k": "susp"}
 
 
 def W(m, body, a=False, join=False, tgt=0, layout=0):
-    return {"k": "with", "m": m, "async": a, "join": join, "tgt": tgt, "layout": layout, "body": body}
+    return {"k": "with", "m": m, "async": a, "join": join, "tgt": tgt, "layout": layout, "body": body,
+            "enter_raises": False, "exit_raises": False}
 
 
 def T(body, handler=None, orelse=None, final=None):
@@ -32,7 +33,13 @@ def While(body):
 
 
 def If(body, orelse=None):
-    return {"k": "if", "body": body, "orelse": orelse or []}
+    return {"k": "if", "body": body, "orelse": orelse or [], "match": False}
+
+
+def Match(case1, case2, default):
+    """match with two cases and a default; for the specification it is the nested conditional it means (the subject
+    expression consumes branch outcomes in the same order), the renderer writes a match statement on 3.10+"""
+    return {"k": "if", "body": case1, "orelse": [{"k": "if", "body": case2, "orelse": default, "match": False}], "match": True}
 
 
 def K(k):
@@ -167,6 +174,22 @@ def family_body_endings():
                 out.append([T([W(0, [W(0, e, a2), S], a1)], final=[P])])
         out.append([W(0, [S] + e, True)])
         out.append([W(0, e, False), S])
+    # match statements (3.10+; rendered as nested ifs on 3.9) as body endings, and managers that raise in enter / exit
+    for a1 in (False, True):
+        for a2 in (False, True):
+            out.append([W(0, [W(0, [S, Match([K("ret_k")], [P], [])], a2)], a1), S])
+            out.append([For([W(0, [W(0, [Match([K("continue")], [K("break")], [S])], a2), S], a1)])])
+            out.append([W(0, [S, Match([S], [K("raise")], [P]), S], a1)])
+            for which in ("enter_raises", "exit_raises"):
+                inner = W(0, [S], a2)
+                inner[which] = True
+                out.append([T([W(0, [S, inner, S], a1)], handler=[S]), S])
+                outer = W(0, [W(0, [S], a2), S], a1)
+                outer[which] = True
+                out.append([T([outer], handler=[P], final=[S])])
+                third = W(0, [S], a2)
+                third[which] = True
+                out.append([For([T([W(0, [third], a1)], handler=[S])])])
     # loops INSIDE an outer with, whose body holds an inner with that ends in a conditional jump
     loop_endings = endings + [
         [If([K("continue")])], [If([K("break")])], [If([K("continue")], [P])], [If([K("break")], [S])],
@@ -209,9 +232,12 @@ def random_body(rng, depth, budget, in_loop):
                 body.append(T(b, handler=[rng.choice([P, S])], final=[P]))
         elif r < 0.75:
             body.append(rng.choice([For, While])(random_body(rng, depth - 1, budget, True)))
-        elif r < 0.87:
+        elif r < 0.83:
             body.append(If(random_body(rng, depth - 1, budget, in_loop),
                            random_body(rng, depth - 1, budget, in_loop) if rng.random() < 0.4 else None))
+        elif r < 0.87:
+            body.append(Match(random_body(rng, depth - 1, budget, in_loop), random_body(rng, depth - 1, budget, in_loop),
+                              random_body(rng, depth - 1, budget, in_loop) if rng.random() < 0.6 else []))
         else:
             ks = ["ret_k", "ret_v", "raise"] + (["break", "continue"] if in_loop else [])
             body.append(K(rng.choice(ks)))
@@ -263,6 +289,15 @@ def family_targets():
 
 def assign_metadata(body, rng):
     for s in walk(body):
+        if s["k"] == "with":
+            s.setdefault("enter_raises", False)
+            s.setdefault("exit_raises", False)
+            if not s.get("fixed_meta") and not s.get("join"):
+                r = rng.random()
+                if r < 0.04:
+                    s["enter_raises"] = True
+                elif r < 0.08:
+                    s["exit_raises"] = True
         if s["k"] == "with" and not s.get("fixed_meta"):
             s["tgt"] = rng.randrange(N_TARGETS)
             s["layout"] = rng.randrange(N_LAYOUTS)
@@ -293,7 +328,9 @@ def build_programs(n_random, seed, families=True, targets=False):
         if nm == 0 or nm > 7:
             continue
         assign_metadata(body, rng)
-        out.append({"body": body, "async": has_async(body), "nm": nm})
+        # every 8th program is "padded": it first touches 300 global names and creates its managers through a
+        # global, so that the instruction that starts a with line carries an EXTENDED_ARG prefix
+        out.append({"body": body, "async": has_async(body), "nm": nm, "pad": len(out) % 8 == 5})
     return out
 
 
@@ -337,6 +374,8 @@ class Rendered:
         self.supported = {}
         self.shape = {}
         self.is_async = {}
+        self.enter_raises = {}
+        self.exit_raises = {}
 
     @property
     def source(self):
@@ -351,6 +390,9 @@ def render(prog, carrier, running=False, first_line=1, py=(3, 12)):
             "agen": "async def prog(env):"}[carrier]
     r.lines.append(head)
     r.lines.append("    kname = 'kn'; kzero = 0; unset = None")
+    pad = bool(prog.get("pad"))
+    if pad:
+        r.lines.append("    _pad = [" + ", ".join("G%d" % k for k in range(300)) + "]")
     r.lines.append("    def lfn(*a): return env.ns")
     if carrier == "agen":
         r.lines.append("    if env.never: yield 0")
@@ -397,6 +439,15 @@ def render(prog, carrier, running=False, first_line=1, py=(3, 12)):
             emit(ind, "raise env.Boom()")
         elif k in ("break", "continue"):
             emit(ind, k)
+        elif k == "if" and s.get("match") and py >= (3, 10):
+            inner = s["orelse"][0]
+            emit(ind, "match env.sel():")
+            emit(ind + 1, "case 1:")
+            block(s["body"], ind + 2)
+            emit(ind + 1, "case 2:")
+            block(inner["body"], ind + 2)
+            emit(ind + 1, "case _:")
+            block(inner["orelse"], ind + 2)
         elif k == "if":
             emit(ind, "if env.c():")
             block(s["body"], ind + 1)
@@ -434,13 +485,16 @@ def render(prog, carrier, running=False, first_line=1, py=(3, 12)):
                 r.supported[m] = supported
                 r.shape[m] = shape
                 r.is_async[m] = it["async"]
+                r.enter_raises[m] = bool(it.get("enter_raises"))
+                r.exit_raises[m] = bool(it.get("exit_raises"))
                 parts.append((m, tsrc))
             pad = "    " * ind
 
             def item_src(m, tsrc, multiline_expr=False, multiline_tgt=False):
-                e = "env.mk(%d)" % m
+                mk = "GMK" if prog.get("pad") else "env.mk"
+                e = "%s(%d)" % (mk, m)
                 if multiline_expr:
-                    e = "env.mk(\n%s        %d\n%s    )" % (pad, m, pad)
+                    e = "%s(\n%s        %d\n%s    )" % (mk, pad, m, pad)
                 if tsrc:
                     t = tsrc
                     if multiline_tgt and t.startswith("(") and ", " in t:
